@@ -51,12 +51,19 @@ def small_pel(rng, u, reg):
             return pel
 
 
-TAILS = ["src-fru", "src-pce", "src-mru", "src-loc", "EH", "LP", "MT", "UD", "ED", "HEX", "UNK"]
+TAILS = ["src-fru", "src-pce", "src-mru", "src-loc", "EH", "LP", "MT", "UD", "ED", "HEX", "UNK", "many-sections"]
 
 
 def tail_pel(rng, u, reg, want):
     """A small well-formed PEL whose LAST section is of the wanted kind (for SRCs: whose last callout ends in the
     wanted substructure)."""
+    if want == "many-sections":
+        # 128..255 sections (the count is one unsigned byte), each tiny: a cut anywhere is still a cut
+        c = rng.choice("OBM")
+        total = rng.choice([128, 129, 200, 254, 255])
+        secs = [pm.sec_generic(rng, u, rng.choice([b"ZZ", b"DH", b"XX"]), pm.gen_payload(rng, u, rng.choice([1, 2, 4])))
+                for _ in range(total - 2)]
+        return pm.Pel(c, pm.gen_ph(rng, u, c), pm.gen_uh(rng, c), secs)
     while True:
         pel = small_pel(rng, u, reg)
         c = pel.creator
